@@ -339,6 +339,11 @@ func genC05(g engine.G) *engine.Case {
 		// premise (a) at a size the other profiles never reach
 		return &engine.Case{Sc: engine.GenMany(g), Reps: 2}
 	}
+	if g.Pct(25) {
+		// a mid-chain converter is not supplied but emitted by a generator
+		// when it is shown the intermediate value
+		engine.GeneratorizeMid(g, sc)
+	}
 	return &engine.Case{Sc: sc, Reps: 10}
 }
 
